@@ -34,7 +34,8 @@ def run(tier, scratch, record=False):
     binary = vlib.build_harness(scratch)
     params = dict(types=tp, rand_modes=1 if tier == "quick" else 3, max_mutations=60 if tier == "quick" else 400)
     job = dict(prop=PROP, tier=tier, seed=vlib.seed(), params=params)
-    out = vlib.run_workers(scratch, binary, RUNNER, job, case_timeout=60, total_timeout=3300 if tier == "thorough" else 900)
+    out = vlib.run_workers(scratch, binary, RUNNER, job, case_timeout=60, total_timeout=3300 if tier == "thorough" else 900,
+                           env={"GODEBUG": "invalidptr=0"})   # see props/c01.py
     fres, nfr = base.field_rules(scratch, tier, binary, "decode", out)
     prec = dict(params)
     prec["types"] = "<emitted by TLC at run time>"
